@@ -135,7 +135,7 @@ func init() {
 			"1.2.3-a+b", "1.2.3+b-a", "1.2.3-a-b+c-d", "1.2.3-a+b+c", "1.2.3-a_b", "1.2.3 ", " 1.2.3", "1.2.3\n", "1.2.3-é", "1.2.3-a\x00", "-1.2.3", "+1.2.3", "1.-2.3", "1..3", ".1.2.3", "1.2.3.",
 			u64max + ".0.0", "0." + u64max + ".0", "0.0." + u64max, "18446744073709551616.0.0", "0.18446744073709551616.0", "0.0.18446744073709551616",
 			"v" + u64max + "." + u64max + "." + u64max + "-rc.1+build.5", "1.0.0-alpha", "1.0.0-alpha.1", "1.0.0-0.3.7", "1.0.0-x.7.z.92", "1.0.0-x-y-z.--", "1.0.0-alpha+001", "1.0.0+20130313144700",
-			"1.0.0-beta+exp.sha.5114f85", "1.0.0+21AF26D3----117B344092BD", "1.2.3-1.2.3", "1.2.3--", "1.2.3---", "1.2.3-+", "1.2.3+-", "1.2.3+-.-", "1.2.3-0.0.0", "1.2.3-0.00"}
+			"1.0.0-beta+exp.sha.5114f85", "1.0.0+21AF26D3----117B344092BD", "1.0.0-\u212a", "1.0.0+\u017fha", "1.0.0-a\u212ab", "1.0.0-\u0131", "1.0.0-\u00df", "1.0.0-\uff41", "1.0.0-a.\u212a.b", "1.0.0+\u212a", "1.2.3-1.2.3", "1.2.3--", "1.2.3---", "1.2.3-+", "1.2.3+-", "1.2.3+-.-", "1.2.3-0.0.0", "1.2.3-0.00"}
 		for i, c := range corpus {
 			if d.Mine(i) {
 				parseAll([]byte(c))
@@ -166,7 +166,7 @@ func init() {
 			}
 		}
 		// Valid <=> round trip, on arbitrary pre-release / build strings
-		bad := []string{"", "a", "a.b", "0", "01", "a..b", ".a", "a.", "a+b", "a b", "é", "a_b", "-", "--", "0a", "00", "1.2.3", "x\x00", "a.0.b", "a.00.b", "+", "*", " "}
+		bad := []string{"\u212a", "\u017f", "a\u212a", "", "a", "a.b", "0", "01", "a..b", ".a", "a.", "a+b", "a b", "é", "a_b", "-", "--", "0a", "00", "1.2.3", "x\x00", "a.0.b", "a.00.b", "+", "*", " "}
 		for i, p := range bad {
 			if !d.Mine(i) {
 				continue
